@@ -92,11 +92,13 @@ PairClauses(p) ==
     [] PROP = "C20" ->
          << <<"C20_returns", C20_returns(p)>> >> \o
          (IF ~(p.a.ok /\ p.b.ok) THEN <<>> ELSE
-          << <<"C20_decode", C20_decode(p)>>, <<"C20_fidelity_toks", C20_fidelity_toks(p)>>,
-             <<"C20_fidelity_errs", C20_fidelity_errs(p)>>, <<"C20_fidelity_lit", C20_fidelity_lit(p)>>,
-             <<"C20_enum", C20_enum(p)>>, <<"C20_tile", C20_tile(p)>>, <<"C20_pos", C20_pos(p)>>,
-             <<"C20_err_pos", C20_err_pos(p)>>, <<"C20_payload_range", C20_payload_range(p)>>,
-             <<"C20_payload_value", C20_payload_value(p)>> >>)
+          << <<"C20_decode", C20_decode(p)>> >> \o
+          (IF p.native THEN
+             << <<"C20_fidelity_toks", C20_fidelity_toks(p)>>, <<"C20_fidelity_errs", C20_fidelity_errs(p)>>,
+                <<"C20_fidelity_lit", C20_fidelity_lit(p)>>, <<"C20_payload_value", C20_payload_value(p)>> >>
+           ELSE <<>>) \o
+          << <<"C20_enum", C20_enum(p)>>, <<"C20_tile", C20_tile(p)>>, <<"C20_pos", C20_pos(p)>>,
+             <<"C20_err_pos", C20_err_pos(p)>>, <<"C20_payload_range", C20_payload_range(p)>> >>)
     [] OTHER -> <<>>
 IsPair == PROP \in {"C15", "C16", "C17", "C18", "C19", "C20"}
 
